@@ -73,8 +73,9 @@
 //    choke cycle / keep-alive calls avoid_tick_within(<virtual time it will consume>) first.
 //  * choke_queue facts: INTERESTED unchokes at once when slots allow (they do by default) and
 //    >10 s (virtual) passed since the connection's last choke change; Peer::set_snubbed(true) chokes at
-//    once AND clears the "queued" (interested) flag, so after set_snubbed(false) the peer must send
-//    INTERESTED again to be unchoked (see harness/c05.cc for the full recipe).
+//    once. Since /repo d278df5 the snub keeps the peer's interest: set_snubbed(false) re-queues it and
+//    unchokes at once when the 10 s have passed (before that fix a fresh INTERESTED was needed).
+//    See harness/c05.cc for a recipe that works with both.
 //  * Observers (dump_*) only READ private state (-fno-access-control); never write it.
 //  * Content of a torrent is a pure function of (content_seed, global offset): content_byte().
 //    T->content holds it; T->piece(i) / T->piece_size(i) slice it; on-disk deviations are listed
@@ -225,6 +226,10 @@ public:
   std::string dump_connection(torrent::PeerConnectionBase* pcb);
   std::string dump_upload_queue(torrent::PeerConnectionBase* pcb);   // "i:b:l,i:b:l"
   std::string dump_torrent(Torrent* t);
+  // ChunkList reference counts of torrent t: "<index>:<references>,..." for nodes with references != 0, "-" if none;
+  // and their sum (mapped-chunk leak detection for C05/C16)
+  std::string dump_chunk_refs(Torrent* t);
+  int chunk_refs_total(Torrent* t);
   std::string dump_global();   // sockets, handshakes, open files, mapped chunks, scheduler size
 
   // ----- I/O interposition (static: the hooks are process-global)
